@@ -340,7 +340,7 @@ pub fn prop(tier: Tier, seed: u64) -> Prop {
 
     // ---- 1-D families (horizontal and vertical in the same case)
     let algs1: Vec<Alg> = FILT.iter().flat_map(|f| [Alg::Conv(*f), Alg::Interp(*f)]).collect();
-    let max_crops = 16u64;
+    let max_crops = 17u64;
     let dims = vec![n as u64, n as u64, max_crops, algs1.len() as u64];
     let (d1, a1, b1) = (dims.clone(), algs1.clone(), bes.clone());
     p.spaces.push(Space::new("1-D single pass: n_in x n_out x CROP1 x filter x {Conv,Interp} (x 13 types x back-ends x 2 orientations inside)", product(&dims), move |idx, ctx| {
